@@ -30,13 +30,32 @@ def constants(ctx):
     ctx.check(R, perm and inverse, 'tables-inverse', 'the two common-input tables are not mutually inverse permutations: a byte encoded through one decodes to another byte through the other')
 
 
+def common_helpers(lib):
+    """by role: the free functions whose bodies index COMMON_INPUTS resp. COMMON_INPUTS_INV"""
+    def uses(f, item):
+        return any(item in str(st['rv']) for b in f.normal_blocks() for st in b['stmts'] if st['k'] == 'assign')
+    enc = [f for f in lib.fn_list if uses(f, "raw::common_inputs::COMMON_INPUTS'") or uses(f, 'raw::common_inputs::COMMON_INPUTS"')]
+    dec = [f for f in lib.fn_list if uses(f, 'raw::common_inputs::COMMON_INPUTS_INV')]
+    enc = [f for f in enc if f not in dec]
+    return (enc[0] if len(enc) == 1 else None), (dec[0] if len(dec) == 1 else None)
+
+
+def const_env(lib, w=8):
+    """named integer constants of the crate as bit vectors (so that `x & MASK` reads like `x & 0xF0`)"""
+    env = []
+    for path, c in lib.consts.items():
+        v = c.get('value')
+        if isinstance(v, str):
+            env.append((('citem', path), const_bits(int(v, 16), 64)))
+    return env
+
+
 def common_input_helpers(ctx, R):
     """encoder index = COMMON[b]+1 if <= max else 0 ; decoder byte = INV[idx-1], idx = 0 => explicit byte"""
     lib = ctx.lib
-    enc = lib.fn('raw::node::common_idx')
-    dec = lib.fn('raw::node::common_input')
+    enc, dec = common_helpers(lib)
     if enc is None or dec is None:
-        ctx.missing(R, 'anchor:common-helpers', 'common_idx / common_input not found')
+        ctx.missing(R, 'anchor:common-helpers', 'the helpers indexing COMMON_INPUTS / COMMON_INPUTS_INV were not found')
         return
     # encoder
     good = {}
@@ -86,7 +105,7 @@ def setter_bits(f, names=('n',), arg_width=8):
     """bit map of self.0 after the setter, per path: [(decisions, bits)]"""
     out = []
     selfexpr = ('field', ('param', f.local_name(1), 1), '0')
-    env = [(selfexpr, var_bits('old', 8))]
+    env = [(selfexpr, var_bits('old', 8))] + const_env(f.crate)
     for i in range(2, f.arg_count + 1):
         env.append((('param', f.local_name(i), i), var_bits('arg', arg_width) + [0] * (8 - arg_width)))
     for p in explore(f, max_visits=1):
@@ -105,7 +124,7 @@ def setter_bits(f, names=('n',), arg_width=8):
 
 def getter_bits(f, w=8):
     selfexpr = ('field', ('param', f.local_name(1), 1), '0')
-    env = [(selfexpr, var_bits('old', 8))]
+    env = [(selfexpr, var_bits('old', 8))] + const_env(f.crate)
     out = []
     for p in explore(f, max_visits=1):
         if p.end == 'return':
@@ -177,21 +196,25 @@ def state_and_sizes_bits(ctx):
             ok = False
             if len(st) == 1:
                 v = p.sym.rvalue_at(st[0][1]['rv'], (st[0][2], st[0][3]))
-                idx = [x for x in walk(v) if is_call(x, 'common_idx')]
+                enc_h, dec_h = common_helpers(lib)
+                idx = [x for x in walk(v) if x[0] == 'call' and enc_h is not None and x[1] == enc_h.path]
                 if len(idx) == 1:
-                    env = [(('field', ('param', f.local_name(1), 1), '0'), const_bits(tag, 8)), (idx[0], var_bits('idx', 8))]
+                    env = [(('field', ('param', f.local_name(1), 1), '0'), const_bits(tag, 8)), (idx[0], var_bits('idx', 8))] + const_env(lib)
                     b = ev(v, env, 8)
                     # idx is <= max by construction of common_idx(input, max): its top two bits are 0
                     want = var_bits('idx', 8)[:6] + const_bits(tag, 8)[6:]
                     okb = b is not None and b[:6] == want[:6] and all((b[i] == want[i]) or (want[i] == 0 and b[i] == ('v', 'idx', i)) for i in (6, 7))
-                    ok = okb and idx[0][2][1] == ('const', 0b111111) and idx[0][2][0][0] == 'param'
+                    mx = idx[0][2][1]
+                    mxv = mx[1] if mx[0] == 'const' else (lib.const_scalar(mx[1]) if mx[0] == 'citem' else None)
+                    ok = okb and mxv == 0b111111 and idx[0][2][0][0] == 'param'
             ctx.check(R2, ok, 'set_common_input:' + ty.rsplit('::', 1)[-1], 'set_common_input must store common_idx(input, 0x3F) in the low six bits and keep the tag', fn=f)
         for p in explore(g, max_visits=1):
             if p.end == 'return':
                 rv = p.ret()
-                ok = is_call(rv, 'common_input')
+                enc_h, dec_h = common_helpers(lib)
+                ok = rv[0] == 'call' and dec_h is not None and rv[1] == dec_h.path
                 if ok:
-                    env = [(('field', ('param', g.local_name(1), 1), '0'), old)]
+                    env = [(('field', ('param', g.local_name(1), 1), '0'), old)] + const_env(lib)
                     ok = ev(rv[2][0], env, 8) == old[:6] + [0, 0]
                 ctx.check(R2, ok, 'common_input:' + ty.rsplit('::', 1)[-1], 'common_input must decode the low six bits of the state byte', fn=g)
     AT = 'raw::node::StateAnyTrans::'
@@ -238,7 +261,7 @@ def state_and_sizes_bits(ctx):
         ctx.check(R2, ok_small and ok_big, 'set_state_ntrans', 'set_state_ntrans must store n in the low six bits iff n <= 63 and otherwise leave them 0 (count byte follows)', fn=f)
     f = lib.fn(AT + 'state_ntrans')
     if f is not None:
-        env = [(('field', ('param', f.local_name(1), 1), '0'), old)]
+        env = [(('field', ('param', f.local_name(1), 1), '0'), old)] + const_env(lib)
         seen = {}
         for p in explore(f, max_visits=1):
             if p.end != 'return':
@@ -270,7 +293,7 @@ def state_and_sizes_bits(ctx):
             byte = [x for x in walk(e) if x[0] == 'index']
             if not byte:
                 continue
-            b = ev(e, [(byte[0], var_bits('v', 8))], 8)
+            b = ev(e, [(byte[0], var_bits('v', 8))] + const_env(lib), 8)
             two = b == [('v', 'v', 6), ('v', 'v', 7)] + [0] * 6
             seen[rv[1].rsplit('::', 1)[-1]] = (val, two, byte[0][2])
         ok = seen.get('OneTransNext', (None,))[0] == 3 and seen.get('OneTrans', (None,))[0] == 2 and isinstance(seen.get('AnyTrans', (None,))[0], tuple) and all(v[1] for v in seen.values())
@@ -497,7 +520,7 @@ def form_selection(ctx):
 
 
 def delta_addressing(ctx):
-    R = ctx.rule('R09.7', 'delta addressing: delta = node start - target, 0 <-> the empty final node, same expression for width and value; reader subtracts from the node start', floor=4)
+    R = ctx.rule('R09.7', 'delta addressing: delta = node start - target, 0 <-> the empty final node, same expression for width and value; reader subtracts from the node start', floor=3)
     lib = ctx.lib
     exprs = {}
     for name in ('raw::node::pack_delta_in', 'raw::node::pack_delta_size'):
